@@ -23,6 +23,82 @@ type C12Case struct {
 	// Shadow: where the call sites name the library macros through a module or an alias, the
 	// calling template defines a macro of its own under the first library macro's plain name
 	Shadow bool `json:"shadow,omitempty"`
+	// Style: how the macro names are spelled: 0 as generated (m0, m1, ...), 1 camelCase (renderM0),
+	// 2 leading underscore (_m0), 3 upper case (M0), 4 with digits and underscores (m0_2x)
+	Style int `json:"style,omitempty"`
+}
+
+// c12Rename spells the macro names of the case in another style, consistently at definitions,
+// call sites, parameter defaults and import lists.
+func c12Rename(c C12Case) C12Case {
+	names := map[string]bool{}
+	for _, m := range c.Macros {
+		names[m.Name] = true
+	}
+	f := func(n string) string {
+		if !names[n] {
+			return n
+		}
+		switch c.Style {
+		case 1:
+			return "render" + strings.ToUpper(n[:1]) + n[1:]
+		case 2:
+			return "_" + n
+		case 3:
+			return strings.ToUpper(n)
+		default:
+			return n + "_2x"
+		}
+	}
+	var fixE func(e *E) *E
+	fixE = func(e *E) *E {
+		if e == nil {
+			return nil
+		}
+		cp := *e
+		if cp.K == "mcall" {
+			cp.S = f(cp.S)
+		}
+		cp.A = make([]*E, len(e.A))
+		for i, a := range e.A {
+			cp.A[i] = fixE(a)
+		}
+		return &cp
+	}
+	var rec func(b []*S)
+	rec = func(b []*S) {
+		for _, st := range b {
+			if st.K == "macro" {
+				st.Name = f(st.Name)
+			}
+			st.E = fixE(st.E)
+			st.With = fixE(st.With)
+			st.Conds = append([]*E(nil), st.Conds...)
+			for i, cd := range st.Conds {
+				st.Conds[i] = fixE(cd)
+			}
+			st.Params = append([]Param(nil), st.Params...)
+			for i := range st.Params {
+				st.Params[i].Def = fixE(st.Params[i].Def)
+			}
+			st.Args = append([]*E(nil), st.Args...)
+			for i, a := range st.Args {
+				st.Args[i] = fixE(a)
+			}
+			rec(st.Body)
+			rec(st.Else)
+			for _, bb := range st.Bodies {
+				rec(bb)
+			}
+		}
+	}
+	out := c
+	out.Style = 0
+	out.Macros = cloneBodyNoMerge(c.Macros)
+	out.Body = cloneBodyNoMerge(c.Body)
+	rec(out.Macros)
+	rec(out.Body)
+	return out
 }
 
 var c12Forms = []string{"local", "self", "import", "from", "alias", "fromonly", "rebind"}
@@ -142,6 +218,9 @@ func c12Set(c C12Case, form string) TSet {
 }
 
 func checkC12(c C12Case) error {
+	if c.Style != 0 {
+		c = c12Rename(c)
+	}
 	// model: the local form
 	want := runModel(c12Set(c, "local"), "main", c.Ctx, 0)
 	if want.domain {
@@ -361,6 +440,7 @@ func genC12(t *rapid.T) (C12Case, map[string]bool) {
 		c.Macros = append(c.Macros, g.macro(i, c.Macros))
 	}
 	c.Shadow = g.pick(3, "shadow") == 0
+	c.Style = []int{0, 0, 0, 1, 2, 3, 4}[g.pick(7, "namestyle")]
 	c.Wrap = g.pick(3, "wrap") == 0
 	if c.Wrap {
 		g.stats["called-from-another-templates-macro"] = true
